@@ -296,6 +296,13 @@ class Templates:
                     s = lit_str(e["args"][0])
                     if s:
                         names.add(s)
+                    elif e["args"][0].get("k") in ("mcall", "call"):
+                        # the name looked up by a new private helper that maps a variant to a registered template name
+                        import srclib as _sl
+                        a0 = e["args"][0]
+                        h0 = _sl._NEW_HELPERS.get(a0["method"] if a0["k"] == "mcall" else (a0["func"].get("segs") or ["?"])[-1])
+                        if h0 is not None and h0.body is not None:
+                            names |= {lit_str(y) for y in walk_block(h0.body) if lit_str(y) and lit_str(y) in self.reg}
                 elif e.get("k") in ("mcall", "call") and e.get("args") and f.qname not in registrars and e.get("method") != "add_raw_template":
                     # a registered template name handed to a wrapper around render
                     for a in e["args"]:
